@@ -79,7 +79,7 @@ class GlobalEncoding:
         self.value |= mask
 
     def _unset_bit(self, mask):
-        self.value ^= mask
+        self.value &= ~mask
 
     def _set_if_true(self, mask, value):
         if bool(value) is True:
@@ -93,7 +93,7 @@ class GlobalEncoding:
 
     @gps_time_type.setter
     def gps_time_type(self, value: GpsTimeType):
-        self.value ^= self.GPS_TIME_TYPE_MASK
+        self.value &= ~self.GPS_TIME_TYPE_MASK
         self.value |= int(value) & self.GPS_TIME_TYPE_MASK
 
     @property
